@@ -146,7 +146,11 @@ impl Loader {
             None => false,
             Some("gcc") => false,
             Some("msvc") => true,
-            Some(other) => bail!("invalid deps attribute {:?}", other),
+            // Values can hold arbitrary bytes; format them lossily rather than as a str.
+            Some(other) => bail!(
+                "invalid deps attribute {:?}",
+                String::from_utf8_lossy(other.as_bytes())
+            ),
         };
         let pool = lookup("pool");
 
